@@ -364,11 +364,16 @@ impl LifeCase {
         simk::DEFER_CLOSE_OPS.store(true, Ordering::SeqCst);
         track::quarantine_all(true);
         util::lockp(&FDMAP).clear();
-        let mut ring = Ring::config()
-            .with_submission_queue_size(sq_len)
-            .with_completion_queue_size(cq_len)
-            .build()
-            .expect("ring build");
+        // `kt=1`: a ring with a kernel thread (IORING_SETUP_SQPOLL). The simulated thread is the
+        // deterministic one (`simk::SQPOLL_EAGER`): it takes what is published at every enter and
+        // is idle (NEED_WAKEUP) in between, so a10 has to wake it with every enter — the model is
+        // the same as without a kernel thread.
+        let kt = get("kt") == 1;
+        simk::SQPOLL_EAGER.store(kt, Ordering::SeqCst);
+        let cfg = Ring::config().with_submission_queue_size(sq_len).with_completion_queue_size(cq_len);
+        let cfg = if kt { cfg.with_kernel_thread() } else { cfg };
+        let mut ring = cfg.build().expect("ring build");
+        simk::SQPOLL_EAGER.store(false, Ordering::SeqCst);
         let sq = ring.sq();
         let rfd = simk::with_sim(|s| *s.rings.keys().next().unwrap());
         let raw = simk::with_ring(rfd, |r, _| r.fresh_fd());
@@ -401,7 +406,7 @@ impl LifeCase {
             max_ops: 5,
             sq_len,
             oracle,
-            feats: Vec::new(),
+            feats: if kt { vec!["kernel-thread".into()] } else { Vec::new() },
             ring_dropped: false,
             lost_at_drop: 0,
             poisoned: false,
@@ -2166,7 +2171,8 @@ impl Comp for LifeComp {
                 _ => u32::MAX - rng.below(6) as u32,
             }
         };
-        format!("life begin {id} sq={sq} cq={cq} sqh={} cqh={} steps={}", ctr(rng), ctr(rng), rng.range(8, 40))
+        let kt = if rng.chance(1, 5) { " kt=1" } else { "" };
+        format!("life begin {id} sq={sq} cq={cq} sqh={} cqh={} steps={}{kt}", ctr(rng), ctr(rng), rng.range(8, 40))
     }
     fn begin(&mut self, header: &str) -> Box<dyn Case> {
         Box::new(LifeCase::new(header))
